@@ -42,6 +42,15 @@ func vclockUntil(t time.Time) time.Duration {
 	return t.Sub(vclockT)
 }
 
+func vclockSince(t time.Time) time.Duration {
+	vclockMu.Lock()
+	defer vclockMu.Unlock()
+	if vclockReal {
+		return time.Since(t)
+	}
+	return vclockT.Sub(t)
+}
+
 func vclockAfterFunc(d time.Duration, f func()) *time.Timer {
 	vclockMu.Lock()
 	defer vclockMu.Unlock()
@@ -86,3 +95,5 @@ func vclockAdvance(d time.Duration) {
 func VClockSet(t time.Time)          { vclockSet(t) }
 func VClockAdvance(d time.Duration)  { vclockAdvance(d) }
 func VClockNow() time.Time           { return vclockNow() }
+func VClockSince(t time.Time) time.Duration { return vclockSince(t) }
+func VClockUntil(t time.Time) time.Duration { return vclockUntil(t) }
